@@ -141,7 +141,7 @@ def gen_population(rng):
         if rng.random() < 0.15:
             t = s
         rt = rng.choice(REL_TYPES)
-        for us in rng.sample(palette, rng.randint(1, 2)):
+        for us in rng.sample(palette, rng.randint(1, min(2, len(palette)))):
             # a later version may point elsewhere
             if rng.random() < 0.2:
                 t = rng.choice(ends)
